@@ -260,7 +260,7 @@ class Universe:
                 attrs = {}
                 for a, b in BUFF_ATTRS:
                     if rnd.random() < 0.8:
-                        attrs[a] = rnd.choice([7, 8, 9, 55])
+                        attrs[a] = rnd.choice([7, 8, 9, 55, 7.5, 8.75])
                         attrs[b] = rnd.choice(vals)
                 t = ch.mktype(group_id=rnd.choice(self.groups), category_id=TypeCategoryId.module, attrs=attrs,
                               effects=[eff, self.online], default_effect=eff)
